@@ -518,7 +518,7 @@ let run_c02 (input : S.t) (observed : S.t) : S.t * string =
     | S.L (S.A "runs" :: (first :: _ as runs)) ->
       if List.exists (function S.L (S.A "panic" :: _) -> true | _ -> false) runs then "fails:a-strategy-panicked"
       else begin
-        let names = [| "all-resolver"; "all-any"; "all-reflection-registered"; "all-reflection-discovered"; "mix-resolver-any"; "mix-resolver-reflection"; "mix-resolver-reflection-discovered" |] in
+        let names = [| "all-resolver"; "all-any"; "all-reflection-registered"; "all-reflection-discovered"; "mix-resolver-any"; "mix-resolver-reflection"; "mix-resolver-reflection-discovered"; "all-reflection-fields-registered-in-another-order" |] in
         let rec find i = function
           | [] -> "holds"
           | r :: rest -> if S.to_string r <> S.to_string first then "fails:strategies-disagree:" ^ (if i < Array.length names then names.(i) else string_of_int i)
